@@ -294,8 +294,38 @@ static void* rv_call(int v, void* p, size_t n) {
   }
   return NULL;
 }
+static void* rv_call(int v, void* p, size_t n);
 static void mode_realloc(void) {
   long idx = 0;
+  /* a NULL input behaves as an allocation and a zero size yields a valid minimal block: every variant incl. the aligned ones */
+  static const size_t pn[] = { 0, 1, 100, 100000 };
+  for (int v = 0; v < 18; v++) for (int k = 0; k < 4; k++) for (int from_null = 0; from_null < 2; from_null++) {
+    long my = idx++;
+    if ((my % g_workers) != g_worker) continue;
+    g_case = my;
+    size_t n = (from_null ? pn[k] : 0), n0 = pn[k];
+    size_t al = (v == 5 ? 16 : v == 10 ? 64 : v >= 12 ? 32 : 0);
+    CASE_BEGIN("realloc #%ld variant %d (%s, %zu)", my, v, from_null ? "NULL" : "live block", n);
+    if (!from_null && n0 == 0) continue;
+    VF_INC(nodes); VF_INC(transitions); VF_INC(checks);
+    void* p = NULL;
+    if (!from_null) { p = (al ? mi_zalloc_aligned(n0, al) : mi_zalloc(n0)); if (vf_model_alloc(p, n0, al, 0, 0, 1, "zalloc") < 0) return; vf_model_remove_ordered(vf_nlive - 1); }
+    void* q;
+    switch (v) {
+      case 12: q = mi_realloc_aligned(p, n, 32); break;
+      case 13: q = mi_realloc_aligned_at(p, n, 32, 0); break;
+      case 14: q = mi_rezalloc_aligned(p, n, 32); break;
+      case 15: q = mi_recalloc_aligned(p, n ? 1 : 0, n ? n : 8, 32); break;
+      case 16: q = mi_heap_realloc_aligned(mi_heap_get_default(), p, n, 32); break;
+      case 17: q = mi_heap_rezalloc_aligned_at(mi_heap_get_default(), p, n, 32, 0); break;
+      default: q = rv_call(v, p, n); break;
+    }
+    if (q == NULL) { VIOL("null-result", "realloc-family variant %d with %s input and size %zu returned NULL (a NULL input behaves as an allocation; a zero size yields a valid minimal block)", v, from_null ? "NULL" : "live", n); return; }
+    if (vf_model_alloc(q, n, (v == 7 ? 0 : al), 0, 0, 0, "realloc-family") < 0) return;
+    if (release_block(vf_nlive - 1, (int)my) != 0) return;
+    if (vf_err_count > 0) { VIOL("error-callback", "mimalloc reported error %d", vf_err_last); return; }
+    VF_INC(nontrivial);
+  }
   for (int oi = 0; oi < g_nsizes; oi++) for (int ni = 0; ni < g_nsizes; ni++) {
     size_t so = g_sizes[oi], sn = g_sizes[ni];
     if (so > 20 * MI_MiB && sn > 20 * MI_MiB && !g_full) continue;
